@@ -86,8 +86,26 @@ class C08(Prop):
         for k, (t, (sk, n)) in enumerate(itertools.product(traits, SHAPES)):
             if n >= 1 and (k + n) % 2 == 0:
                 plans.append((t, (sk, n), 'attr' if k % 2 else 'derive', ('list', k % 4)))
+        # two operator traits on one struct: the binary and the assign form of one operator (either order, one list or
+        # two stacked lists), two different operators, an operator next to a unary one
+        bins = [t for t in traits if t[1] == 'bin']
+        asgs = [t for t in traits if t[1] == 'assign']
+        uns = [t for t in traits if t[1] == 'un']
+        pairs = []
+        for k, (b, a) in enumerate(zip(bins, asgs)):
+            pairs += [(b, a), (a, b)]
+            pairs.append((b, bins[(k + 1) % len(bins)]))
+            pairs.append((a, asgs[(k + 3) % len(asgs)]))
+            pairs.append((b, uns[k % len(uns)]))
+        for k, (t1, t2) in enumerate(pairs):
+            for sh in (('tuple', 2), ('named', 1)):
+                plans.append((t1, sh, 'attr' if k % 2 else 'derive', ('second', t2, k % 3 == 0)))
         for (tr, kind, f, sym), (sk, n), mode, fattr in plans:
             larg, lshared = None, None
+            second, stacked = None, False
+            if fattr is not None and fattr[0] == 'second':
+                second, stacked = fattr[1], fattr[2]
+                fattr = None
             if fattr is not None and fattr[0] == 'list':
                 larg = [([], False), None, ([sx.B_DOTS], False), None][fattr[1]]
                 lshared = [None, [], None, [sx.b_pred(sx.wty(sx.tid('u8'), [sx.tb_trait(['Copy'])]))]][fattr[1]]
@@ -100,11 +118,14 @@ class C08(Prop):
             fs = [sx.field(MT, name=('f%d' % i) if sk == 'named' else None, attrs=fa(i)) for i in range(n)]
             body = sx.named(fs) if sk == 'named' else (sx.unnamed(fs) if sk == 'tuple' else sx.UNIT)
             it = sx.struct('X', body)
-            tl = [(tr, larg)]
+            tl = [(tr, larg)] + ([(second[0], None)] if second and not stacked else [])
+            if second and stacked:
+                it = '(struct (' + sx.a_derive_ex(sx.dx([(second[0], None)])) + ' ' + it[len('(struct ('):]
             req = sx.inv_attr(sx.dx(tl, bnd=lshared), it) if mode == 'attr' else sx.inv_derive(
                 '(struct (' + sx.a_derive_ex(sx.dx(tl, bnd=lshared)) + ' ' + it[len('(struct ('):])
-            out.append((req, dict(features=(tr, sk + str(n), mode, 'field-helper@%d' % fattr[0] if fattr else ('list-bound' if (larg or lshared is not None) else 'plain')), trait=tr, kind=kind, fn=f, sym=sym, shape=(sk, n),
-                                  nontrivial=n > 0)))
+            ops = [(tr, kind, f, sym)] + ([second] if second else [])
+            out.append((req, dict(features=(tr, sk + str(n), mode, 'field-helper@%d' % fattr[0] if fattr else ('list-bound' if (larg or lshared is not None) else ('with-' + second[0] + ('-stacked' if stacked else '')) if second else 'plain')), trait=tr, kind=kind, fn=f, sym=sym, shape=(sk, n),
+                                  ops=ops, nontrivial=n > 0)))
         return out
 
     def oracle(self, tier, rng, suspicious):
@@ -118,29 +139,32 @@ class C08(Prop):
             src = [l2.decl('#[derive(Debug, Clone, PartialEq)]\n' + head, r.item, r.cid), 'pub fn run() {',
                    '    let a0 = %s; let b0 = %s;' % (a, b)]
             exp = []
-            sym = m['sym']
-            if m['kind'] == 'bin':
+            for oi, (o_trait, o_kind, o_fn, sym) in enumerate(m.get('ops') or [(m['trait'], m['kind'], m['fn'], m['sym'])]):
+              pre = '' if oi == 0 else 'op%d.' % oi
+              m = dict(m, trait=o_trait, kind=o_kind, fn=o_fn)
+              if m['kind'] == 'bin':
                 for li, (lref, rref) in enumerate(itertools.product((False, True), repeat=2)):
                     src.append('    { let a = a0.clone(); let b = b0.clone(); calls(); let c = ::core::ops::%s::%s(%sa%s, %sb%s); '
-                               'println!("%d\\tbin%d\\t{:?}\\t{}\\t{}", c, calls(), %s); }'
+                               'println!("%d\\t%sbin%d\\t{:?}\\t{}\\t{}", c, calls(), %s); }'
                                % (m['trait'], m['fn'], '&' if lref else '', '', '&' if rref else '', '',
-                                  r.cid, li, _unchanged(lref, rref)))
-                    exp.append(('bin%d' % li, dbg(sk, ['(%sa%d%s%sb%d)' % ('r' if lref else 'o', i, sym, 'r' if rref else 'o', i)
+                                  r.cid, pre, li, _unchanged(lref, rref)))
+                    exp.append((pre + 'bin%d' % li, dbg(sk, ['(%sa%d%s%sb%d)' % ('r' if lref else 'o', i, sym, 'r' if rref else 'o', i)
                                                       for i in range(n)]), str(n), 'true'))
-            elif m['kind'] == 'assign':
+              elif m['kind'] == 'assign':
                 for ri, rref in enumerate((False, True)):
                     src.append('    { let mut a = a0.clone(); let b = b0.clone(); calls(); ::core::ops::%s::%s_assign(&mut a, %sb); '
-                               'println!("%d\\tasg%d\\t{:?}\\t{}\\t{}", a, calls(), %s); }'
-                               % (m['trait'], m['fn'], '&' if rref else '', r.cid, ri, 'b == b0' if rref else 'true'))
-                    exp.append(('asg%d' % ri, dbg(sk, ['(a%d%s=%sb%d)' % (i, sym, 'r' if rref else 'o', i) for i in range(n)]),
+                               'println!("%d\\t%sasg%d\\t{:?}\\t{}\\t{}", a, calls(), %s); }'
+                               % (m['trait'], m['fn'], '&' if rref else '', r.cid, pre, ri, 'b == b0' if rref else 'true'))
+                    exp.append((pre + 'asg%d' % ri, dbg(sk, ['(a%d%s=%sb%d)' % (i, sym, 'r' if rref else 'o', i) for i in range(n)]),
                                 str(n), 'true'))
-            else:
+              else:
                 for li, lref in enumerate((False, True)):
                     src.append('    { let a = a0.clone(); calls(); let c = ::core::ops::%s::%s(%sa); '
-                               'println!("%d\\tun%d\\t{:?}\\t{}\\t{}", c, calls(), %s); }'
-                               % (m['trait'], m['fn'], '&' if lref else '', r.cid, li, 'a == a0' if lref else 'true'))
-                    exp.append(('un%d' % li, dbg(sk, ['(%s%sa%d)' % (sym, 'r' if lref else 'o', i) for i in range(n)]),
+                               'println!("%d\\t%sun%d\\t{:?}\\t{}\\t{}", c, calls(), %s); }'
+                               % (m['trait'], m['fn'], '&' if lref else '', r.cid, pre, li, 'a == a0' if lref else 'true'))
+                    exp.append((pre + 'un%d' % li, dbg(sk, ['(%s%sa%d)' % (sym, 'r' if lref else 'o', i) for i in range(n)]),
                                 str(n), 'true'))
+            m = r.meta
             src.append('}')
             expect[r.cid] = exp
             mods.append(l2.Module(r.cid, '\n'.join(src), r))
